@@ -430,9 +430,9 @@ def ok_of(prog, T, depth=0):
             return out
     if T[0] == "agg" and T[2] == "core::result::Result" and T[3] == "Ok":
         return [T[4][0][1]]
-    if is_call(T) and len(T[2]) == 2 and T[2][1][0] == "closure" and "result::Result" in T[1] and depth < 3:
+    if is_call(T) and len(T[2]) == 2 and T[2][1][0] in ("closure", "fnref") and "result::Result" in T[1] and depth < 3:
         nm = T[1].rsplit("::", 1)[-1]
-        body = closure_body(prog, T[2][1], {2: okval(T[2][0])})
+        body = apply_callable(prog, T[2][1], [okval(T[2][0])])
         if body is not None and nm == "map":
             return [body]
         if body is not None and nm == "and_then":
@@ -1187,6 +1187,10 @@ def _forall(prog, v, src_pred, mechanisms, sinks, require_fail_err, depth):
             edges = flag_carried(cf, cv, edges, fail_ok=(lambda e: closure_refuses(cf, e, ci["name"], prog)) if require_fail_err else None)
         cont = closure_continue_sinks(prog, cf, cv, ci["name"], [mk(item) for _, mk in mechanisms])
         cont = {b_ for b_ in cont if not returned_flag_guarded(cf, cv, edges, b_, ci["name"])}
+        from .guards import returns_result as _rr
+        if _rr(cf) and cont:
+            # a Result returned as it is (`lookup.ok_or(e).map(|x| ..)`): Ok only if the lookup succeeded
+            cont = cont - guarded_sinks(prog, cv, [(n_, mk(item)) for n_, mk in mechanisms], cont, require_fail_err)
         if not edges and cont:
             continue
         if sep(cf, edges, cont):
@@ -1818,11 +1822,19 @@ def apply_callable(prog, c, args):
         g = prog.fns.get(c[1])
         if g is not None and g.has_body and g.crate.startswith("frost") and len(g.blocks) <= 12:
             return TermCx(prog, g, {i + 1: a for i, a in enumerate(args)}, 1).local(0)
+        last = c[1].split("::<")[0].rsplit("::", 1)[-1]
+        if g is None and c[1].startswith("frost") and last[:1].isupper():
+            # the constructor of a tuple struct used as a function (`.map(VerifiableSecretSharingCommitment)`)
+            return ("agg", "adt", c[1].split("::<")[0], last, tuple((str(i), a) for i, a in enumerate(args)))
     return None
 
 
-def _ok_payload_of(body):
+def _ok_payload_of(body, prog=None):
     """a fallible per-element mapping collected into Result<_, E>: the entry is the Ok payload (errors stop the collection)"""
+    if prog is not None and is_call(body) and "result::Result" in body[1] and body[1].rsplit("::", 1)[-1] in ("map", "and_then"):
+        pays = list(dict.fromkeys(ok_of(prog, body)))
+        if len(pays) == 1 and not (pays[0][0] == "ok" and pays[0][1] == body):
+            return pays[0]
     alts = [a for a in (body[2] if body[0] == "phi" else (body,)) if a[0] not in ("residual", "errval")
             and not (a[0] == "agg" and a[2] == "core::result::Result" and a[3] == "Err")]
     if len(alts) == 1 and alts[0][0] == "agg" and alts[0][2] == "core::result::Result" and alts[0][3] == "Ok":
@@ -1881,6 +1893,9 @@ def mapping_of(prog, fn, v, t):
         m = mapping_of(prog, fn, v, t[1][2][0])
         if m and m["key"] is None and m["val"][0] == "agg" and m["val"][1] == "tuple" and len(m["val"][4]) == 2:
             return {"source": m["source"], "key": None, "val": m["val"][4][int(t[3])][1], "form": m["form"] + "+unzip"}
+        if m and m["key"] is not None:
+            # the mapped pair was read as (key, value): its two components are the two sides
+            return {"source": m["source"], "key": None, "val": (m["key"], m["val"])[int(t[3])], "form": m["form"] + "+unzip"}
         return None
     if is_call(t, name="collect") and t[2] and (is_call(t[2][0], name="map") or is_call(t[2][0], name="zip")):
         t = t[2][0]
@@ -1889,7 +1904,7 @@ def mapping_of(prog, fn, v, t):
         # rendered as zip(A, B) over the two base collections, the element over ITEM.0 / ITEM.1
         lv = lockstep_view(prog, t)
         if lv is not None and len(lv[0]) == 2:
-            body = _ok_payload_of(lv[1])
+            body = _ok_payload_of(lv[1], prog)
             src2 = ("call", "core::iter::traits::iterator::Iterator::zip", (lv[0][0], lv[0][1]), None, None)
             if body[0] == "agg" and body[1] == "tuple" and len(body[4]) == 2:
                 return {"source": src2, "key": body[4][0][1], "val": body[4][1][1], "form": "zip-map"}
@@ -1902,7 +1917,7 @@ def mapping_of(prog, fn, v, t):
         body = apply_callable(prog, clo, [ITEM])
         if body is None:
             return None
-        body = _ok_payload_of(body)
+        body = _ok_payload_of(body, prog)
         sv = seq_view(src)
         if sv is None or sv["adaptors"] or sv["drop_front"] or sv["drop_back"]:
             return None
@@ -2312,6 +2327,10 @@ def map_components(P, f, v, t):
         return out
     m = mapping_of(P, f, v, t)
     if m:
+        if m["key"] is None and m["form"].endswith("+unzip"):
+            # one side of an unzip of pairs of pairs: a collection of (key, value) entries
+            k, val = split(m["val"])
+            return [("each", m["source"], k, val)]
         return [("each", m["source"], m["key"], m["val"])]
     return [("?", t)]
 
